@@ -311,3 +311,909 @@ Proof.
   change (expected_ticks p 0 0 n) with (expected_ticks p 0 (now (tinit (TInterval p))) n).
   eapply (interval_prompt_gen p Hp n 0%nat (tinit (TInterval p)) 0%nat _ (TInterval p) I); cbn; reflexivity.
 Qed.
+
+(* ---------- C02: after unsubscribe() the subscriber is never called again ---------- *)
+
+Definition slot_job (j : job) : bool :=
+  match j with JEmit _ | JEmitErr _ | JComplete | JTrailing | JFlush => true | _ => false end.
+
+(* a task that can no longer reach the subscriber *)
+Definition quiet_task (s : tsys) (tk : task) (j : job) : Prop :=
+  t_stage tk = StFinished \/ t_keep tk = false \/ (alive s = false /\ slot_job j = true).
+
+Record Silent (s : tsys) : Prop := {
+  sil_src : src_on s = false;
+  sil_tasks : forall i tk j, nth_error (tasks s) i = Some tk -> nth_error (jobs s) i = Some j -> quiet_task s tk j
+}.
+
+Definition not_raw (o : top) : Prop := match o with TRaw => False | _ => True end.
+
+Lemma nth_error_set_nth_eq {A} (l : list A) i x y : nth_error l i = Some y -> nth_error (set_nth l i x) i = Some x.
+Proof. revert i. induction l as [|a l IH]; intros [|i] H; cbn in *; try discriminate; auto. Qed.
+
+Lemma nth_error_set_nth_neq {A} (l : list A) i k x : i <> k -> nth_error (set_nth l i x) k = nth_error l k.
+Proof. revert i k. induction l as [|a l IH]; intros [|i] [|k] H; cbn; auto; try congruence. Qed.
+
+Lemma set_nth_length {A} (l : list A) i x : length (set_nth l i x) = length l.
+Proof. revert i. induction l as [|a l IH]; intros [|i]; cbn; auto. Qed.
+
+(* polling a quiet task neither calls the subscriber nor makes anything loud *)
+Lemma poll_quiet now tk :
+  (t_stage tk = StFinished \/ t_keep tk = false) ->
+  snd (poll now tk) = PNone /\ (t_stage (fst (poll now tk)) = StFinished \/ t_keep (fst (poll now tk)) = false).
+Proof.
+  intros [H|H]; unfold poll.
+  - rewrite H. cbn. auto.
+  - destruct (t_stage tk) eqn:Es; rewrite ?H; cbn; auto.
+Qed.
+
+Lemma poll_keeps_flags now tk :
+  t_keep (fst (poll now tk)) = t_keep tk.
+Proof.
+  unfold poll, poll_body. destruct (t_stage tk); cbn; destruct (t_keep tk) eqn:Ek; cbn; auto;
+    repeat match goal with
+           | |- context [if ?c then _ else _] => destruct c; cbn; auto
+           | |- context [match t_body tk with _ => _ end] => destruct (t_body tk); cbn; auto
+           end.
+Qed.
+
+Definition no_tout (out : list tout) : Prop := forall x, In x out -> match x with TOut _ _ => False | _ => True end.
+
+Lemma no_tout_nil : no_tout [].
+Proof. intros x []. Qed.
+
+Lemma no_tout_app a b : no_tout a -> no_tout b -> no_tout (a ++ b).
+Proof. intros Ha Hb x Hx. apply in_app_or in Hx. destruct Hx as [Hx|Hx]; [apply Ha, Hx|apply Hb, Hx]. Qed.
+
+(* a slot job run while the slot is empty delivers nothing and leaves the slot empty *)
+Lemma dead_slot_job o s t j seq :
+  alive s = false -> slot_job j = true ->
+  let '(s1, out, c) := on_job o s t j seq in
+  out = [] /\ alive s1 = false /\ tasks s1 = tasks s /\ jobs s1 = jobs s /\ src_on s1 = src_on s.
+Proof.
+  intros Ha Hj. destruct j; cbn in Hj; try discriminate; cbn [on_job];
+    unfold slot_next, slot_term; rewrite ?Ha; cbn; auto.
+  destruct (trailing s); cbn; rewrite ?Ha; cbn; auto.
+Qed.
+
+Lemma silent_cancel s t : Silent s -> Silent (cancel_task s t).
+Proof.
+  intros [A B]. unfold cancel_task. destruct (nth_error (tasks s) t) as [tk|] eqn:Et; [|split; assumption].
+  split; cbn; auto. intros i tk' j' Hi Hj'. destruct (Nat.eq_dec t i) as [<-|Hne].
+  - rewrite (nth_error_set_nth_eq _ _ _ _ Et) in Hi. inversion Hi; subst. right. left. reflexivity.
+  - rewrite nth_error_set_nth_neq in Hi by exact Hne.
+    destruct (B i tk' j' Hi Hj') as [Q|[Q|[Q1 Q2]]]; [left|right; left|right; right]; auto.
+Qed.
+
+Lemma silent_same s s' :
+  Silent s -> src_on s' = false -> tasks s' = tasks s -> jobs s' = jobs s -> (alive s = false -> alive s' = false) -> Silent s'.
+Proof.
+  intros [A B] H1 H2 H3 H4. split; [exact H1|]. intros i tk j Hi Hj. rewrite H2 in Hi. rewrite H3 in Hj.
+  destruct (B i tk j Hi Hj) as [Q|[Q|[Q1 Q2]]]; [left|right; left|right; right]; auto.
+Qed.
+
+Lemma silent_unsub_handle o s t : Silent s -> Silent (fst (unsub_handle o s t)) /\ no_tout (snd (unsub_handle o s t)).
+Proof.
+  intros H. unfold unsub_handle.
+  destruct (nth_error (tasks s) t) as [tk|]; [|split; [exact H|apply no_tout_nil]].
+  destruct (nth_error (jobs s) t) as [j|]; [|split; [exact H|apply no_tout_nil]].
+  pose proof (silent_cancel s t H) as Hc.
+  destruct j; cbn [subscribing andb]; try (split; [exact Hc|apply no_tout_nil]);
+    destruct (handle_closed tk); cbn [fst snd]; try (split; [exact Hc|apply no_tout_nil]).
+  - split; [|apply no_tout_nil]. apply (silent_same _ _ Hc); cbn; auto.
+  - destruct (existsb _ _); cbn [fst snd].
+    + split; [apply (silent_same _ _ Hc); cbn; auto; apply Hc|]. intros x [<-|[]]. exact I.
+    + split; [exact Hc|apply no_tout_nil].
+Qed.
+
+Lemma silent_unsub_handles o : forall ts s, Silent s -> Silent (fst (unsub_handles o s ts)) /\ no_tout (snd (unsub_handles o s ts)).
+Proof.
+  induction ts as [|t r IH]; intros s H; [split; [exact H|apply no_tout_nil]|].
+  cbn [unsub_handles]. destruct (silent_unsub_handle o s t H) as [H1 N1].
+  destruct (unsub_handle o s t) as [s1 o1]. cbn [fst snd] in *.
+  destruct (IH s1 H1) as [H2 N2]. destruct (unsub_handles o s1 r) as [s2 o2]. cbn [fst snd] in *.
+  split; [exact H2|apply no_tout_app; assumption].
+Qed.
+
+Lemma silent_on_unsub o s : not_raw o -> Silent s -> Silent (fst (on_unsub o s)) /\ no_tout (snd (on_unsub o s)).
+Proof.
+  intros Ho H.
+  assert (Hsrc : Silent (upd_src s false (src_done s))) by (apply (silent_same _ _ H); cbn; auto).
+  destruct o; try contradiction; cbn [on_unsub].
+  - destruct (multi (upd_src s false (src_done s))) as [l|] eqn:Em; [|split; [exact Hsrc|apply no_tout_nil]].
+    apply silent_unsub_handles. apply (silent_same _ _ Hsrc); cbn; auto.
+  - destruct (multi (upd_src s false (src_done s))) as [l|] eqn:Em; [|split; [exact Hsrc|apply no_tout_nil]].
+    apply silent_unsub_handles. apply (silent_same _ _ Hsrc); cbn; auto.
+  - destruct (main_task s); [apply silent_unsub_handle, H|split; [exact H|apply no_tout_nil]].
+  - destruct (main_task s); [apply silent_unsub_handle, H|split; [exact H|apply no_tout_nil]].
+  - destruct (handler (upd_src s false (src_done s))) as [h|]; cbn [fst snd]; (split; [|apply no_tout_nil]); [|exact Hsrc].
+    pose proof (silent_cancel _ h Hsrc) as Hc. apply (silent_same _ _ Hc); cbn; auto. apply Hc.
+  - cbn [fst snd]. split; [|apply no_tout_nil]. apply (silent_same _ _ Hsrc); cbn; auto.
+  - destruct (main_task s) as [t|].
+    + destruct (silent_unsub_handle (TBufferTime d) s t H) as [H1 N1].
+      destruct (unsub_handle (TBufferTime d) s t) as [s1 o1]. cbn [fst snd] in *.
+      split; [apply (silent_same _ _ H1); cbn; auto|exact N1].
+    + cbn [fst snd]. split; [exact Hsrc|apply no_tout_nil].
+  - destruct (main_task s) as [t|].
+    + destruct (silent_unsub_handle (TBufferCountTime count d) s t H) as [H1 N1].
+      destruct (unsub_handle (TBufferCountTime count d) s t) as [s1 o1]. cbn [fst snd] in *.
+      split; [apply (silent_same _ _ H1); cbn; auto|exact N1].
+    + cbn [fst snd]. split; [exact Hsrc|apply no_tout_nil].
+  - destruct (main_task s); [apply silent_unsub_handle, H|split; [exact H|apply no_tout_nil]].
+  - destruct (main_task s); [apply silent_unsub_handle, H|split; [exact H|apply no_tout_nil]].
+  - destruct (main_task s); [apply silent_unsub_handle, H|split; [exact H|apply no_tout_nil]].
+Qed.
+
+Lemma silent_step o s l :
+  not_raw o -> Silent s ->
+  Silent (fst (tstep o s l)) /\ no_tout (snd (tstep o s l)).
+Proof.
+  intros Ho [Hsrc Ht]. destruct l; cbn [tstep].
+  - (* LSrc *)
+    rewrite Hsrc. destruct (src_done s); cbn [fst snd]; [split; [split; auto|apply no_tout_nil]|].
+    destruct (is_term e); cbn [fst snd]; (split; [split; cbn; auto|apply no_tout_nil]).
+  - (* LRun *)
+    destruct (nth_error (tasks s) t) as [tk|] eqn:Et; [|split; [split; auto|apply no_tout_nil]].
+    destruct (nth_error (jobs s) t) as [j|] eqn:Ej; [|split; [split; auto|apply no_tout_nil]].
+    destruct (Ht t tk j Et Ej) as [Hq|[Hq|[Ha Hsj]]].
+    + destruct (poll_quiet (now s) tk (or_introl Hq)) as [P1 P2].
+      destruct (poll (now s) tk) as [tk1 res]. cbn [fst snd] in *. subst res. cbn [fst snd].
+      split; [|apply no_tout_nil]. split; cbn; auto.
+      intros i tk' j' Hi Hj'. destruct (Nat.eq_dec t i) as [<-|Hne].
+      * rewrite (nth_error_set_nth_eq _ _ _ _ Et) in Hi. inversion Hi; subst tk'.
+        destruct P2; [left|right; left]; assumption.
+      * rewrite nth_error_set_nth_neq in Hi by exact Hne. apply (Ht i tk' j' Hi Hj').
+    + destruct (poll_quiet (now s) tk (or_intror Hq)) as [P1 P2].
+      destruct (poll (now s) tk) as [tk1 res]. cbn [fst snd] in *. subst res. cbn [fst snd].
+      split; [|apply no_tout_nil]. split; cbn; auto.
+      intros i tk' j' Hi Hj'. destruct (Nat.eq_dec t i) as [<-|Hne].
+      * rewrite (nth_error_set_nth_eq _ _ _ _ Et) in Hi. inversion Hi; subst tk'.
+        destruct P2; [left|right; left]; assumption.
+      * rewrite nth_error_set_nth_neq in Hi by exact Hne. apply (Ht i tk' j' Hi Hj').
+    + (* the slot is empty: the job may run but delivers nothing *)
+      destruct (poll (now s) tk) as [tk1 res] eqn:Ep.
+      set (s1 := upd_tasks s (set_nth (tasks s) t tk1)).
+      assert (Hs1 : Silent s1).
+      { split; cbn; auto. intros i tk' j' Hi Hj'. cbn [upd_tasks jobs tasks] in Hi, Hj'. destruct (Nat.eq_dec t i) as [<-|Hne].
+        - right. right. rewrite Ej in Hj'. inversion Hj'; subst j'. auto.
+        - rewrite nth_error_set_nth_neq in Hi by exact Hne. apply (Ht i tk' j' Hi Hj'). }
+      destruct res as [|jn seq rep]; [cbn [fst snd]; split; [exact Hs1|apply no_tout_nil]|].
+      assert (Ha1 : alive s1 = false) by exact Ha.
+      pose proof (dead_slot_job o s1 t j seq Ha1 Hsj) as D.
+      destruct (on_job o s1 t j seq) as [[s2 out] c]. destruct D as (-> & Ha2 & Ht2 & Hj2 & Hsrc2).
+      assert (Hs2 : Silent s2).
+      { destruct Hs1 as [A B]. split; [congruence|]. intros i tk' j' Hi Hj'. rewrite Ht2 in Hi. rewrite Hj2 in Hj'.
+        destruct (B i tk' j' Hi Hj') as [Q|[Q|[Q1 Q2]]]; [left|right; left|right; right]; auto. }
+      destruct rep; [|cbn [fst snd]; split; [exact Hs2|apply no_tout_nil]].
+      destruct (nth_error (tasks s2) t) as [tk2|] eqn:Et2; [|cbn [fst snd]; split; [exact Hs2|apply no_tout_nil]].
+      cbn [fst snd]. split; [|apply no_tout_nil].
+      destruct Hs2 as [A B]. split; cbn; auto.
+      intros i tk' j' Hi Hj'. destruct (Nat.eq_dec t i) as [<-|Hne].
+      * right. right. split; [exact Ha2|]. rewrite Hj2 in Hj'. unfold s1 in Hj'. cbn [upd_tasks jobs] in Hj'.
+        rewrite Ej in Hj'. inversion Hj'; subst; exact Hsj.
+      * rewrite nth_error_set_nth_neq in Hi by exact Hne.
+        destruct (B i tk' j' Hi Hj') as [Q|[Q|[Q1 Q2]]]; [left|right; left|right; right]; auto.
+  - (* LAdv *) cbn [fst snd]. split; [split; cbn; auto|apply no_tout_nil].
+  - (* LUnsub *) apply silent_on_unsub; [exact Ho|split; assumption].
+  - (* LClosed *) cbn [fst snd]. split; [split; auto|]. intros x [<-|[]]. exact I.
+  - (* LFinish *) cbn [fst snd]. split; [split; cbn; auto|apply no_tout_nil].
+  - destruct o; try contradiction; cbn [fst snd]; (split; [split; auto|apply no_tout_nil]).
+  - destruct o; try contradiction; cbn [fst snd]; (split; [split; auto|apply no_tout_nil]).
+  - destruct o; try contradiction; cbn [fst snd]; (split; [split; auto|apply no_tout_nil]).
+  - destruct o; try contradiction; cbn [fst snd]; (split; [split; auto|apply no_tout_nil]).
+  - destruct o; try contradiction; cbn [fst snd]; (split; [split; auto|apply no_tout_nil]).
+Qed.
+
+(* ---- before the first unsubscribe: every task that could still reach the subscriber is
+   covered by the subscription that `actual_subscribe` returned ---- *)
+
+Definition covered (o : top) (s : tsys) (i : nat) (j : job) : Prop :=
+  match o with
+  | TDelay _ | TObserveOn => exists l, multi s = Some l /\ In i l
+  | TDebounce _ => handler s = Some i
+  | TThrottle _ _ => slot_job j = true
+  | TDelaySubscription _ | TSubscribeOn | TBufferTime _ | TBufferCountTime _ _
+  | TInterval _ | TIntervalAt _ _ | TTimer _ _ => main_task s = Some i
+  | TRaw => False
+  end.
+
+(* the input is connected only where unsubscribe() will disconnect it *)
+Definition src_guard (o : top) (s : tsys) : Prop :=
+  match o with
+  | TDelaySubscription _ | TSubscribeOn =>
+      main_task s = Some 0%nat /\ nth_error (jobs s) 0 = Some JSubscribe /\
+      (src_on s = true -> exists tk, nth_error (tasks s) 0 = Some tk /\ t_value tk = true)
+  | TInterval _ | TIntervalAt _ _ | TTimer _ _ => src_on s = false
+  | TDelay _ | TObserveOn => exists l, multi s = Some l
+  | _ => True
+  end.
+
+Record LiveInv (o : top) (s : tsys) : Prop := {
+  li_len : length (jobs s) = length (tasks s);
+  li_tasks : forall i tk j, nth_error (tasks s) i = Some tk -> nth_error (jobs s) i = Some j ->
+                            quiet_task s tk j \/ covered o s i j;
+  li_src : src_guard o s;
+  li_nosub : forall i, nth_error (jobs s) i = Some JSubscribe -> i = 0%nat /\ match o with TDelaySubscription _ | TSubscribeOn => True | _ => False end
+}.
+
+(* what cancelling does to the bookkeeping *)
+Lemma cancel_task_shape s t :
+  jobs (cancel_task s t) = jobs s /\ alive (cancel_task s t) = alive s /\ multi (cancel_task s t) = multi s /\
+  handler (cancel_task s t) = handler s /\ main_task (cancel_task s t) = main_task s /\ src_on (cancel_task s t) = src_on s /\
+  length (tasks (cancel_task s t)) = length (tasks s) /\
+  (forall i, i <> t -> nth_error (tasks (cancel_task s t)) i = nth_error (tasks s) i) /\
+  (forall tk, nth_error (tasks s) t = Some tk -> nth_error (tasks (cancel_task s t)) t = Some (cancel tk)).
+Proof.
+  unfold cancel_task. destruct (nth_error (tasks s) t) as [tk|] eqn:Et; cbn; repeat split; auto.
+  - apply set_nth_length.
+  - intros i Hi. apply nth_error_set_nth_neq. auto.
+  - intros tk' H. inversion H; subst. apply (nth_error_set_nth_eq _ _ _ _ Et).
+  - intros tk' H. discriminate.
+Qed.
+
+(* a state that differs only in fields the invariant does not read *)
+Lemma quiet_mono s s' tk j : (alive s = false -> alive s' = false) -> quiet_task s tk j -> quiet_task s' tk j.
+Proof. intros H [Q|[Q|[Q1 Q2]]]; [left|right; left|right; right]; auto. Qed.
+
+Lemma cancel_idem tk : cancel (cancel tk) = cancel tk.
+Proof. reflexivity. Qed.
+
+(* what unsubscribing one task handle does to the bookkeeping *)
+Definition handles_eff (s s' : tsys) (ts : list nat) : Prop :=
+  jobs s' = jobs s /\ alive s' = alive s /\ length (tasks s') = length (tasks s) /\
+  (src_on s' = src_on s \/ src_on s' = false) /\
+  (forall i tk', nth_error (tasks s') i = Some tk' ->
+     exists tk, nth_error (tasks s) i = Some tk /\ (tk' = tk \/ tk' = cancel tk) /\
+                (In i ts -> nth_error (jobs s) i <> None -> tk' = cancel tk)).
+
+Lemma handles_eff_refl s : handles_eff s s [].
+Proof. repeat split; auto. intros i tk' H. exists tk'. repeat split; auto. intros []. Qed.
+
+Lemma unsub_handle_eff o s t : handles_eff s (fst (unsub_handle o s t)) [t].
+Proof.
+  pose proof (cancel_task_shape s t) as (C1 & C2 & C3 & C4 & C5 & C6 & C7 & C8 & C9).
+  assert (Hc : handles_eff s (cancel_task s t) [t]).
+  { repeat split; auto. intros i tk' Hi. destruct (Nat.eq_dec i t) as [->|Hne].
+    - destruct (nth_error (tasks s) t) as [tk|] eqn:Et.
+      + rewrite (C9 tk eq_refl) in Hi. inversion Hi; subst. exists tk. repeat split; auto.
+      + unfold cancel_task in Hi. rewrite Et in Hi. congruence.
+    - rewrite (C8 i Hne) in Hi. exists tk'. repeat split; auto. intros [E|[]]. congruence. }
+  unfold unsub_handle.
+  destruct (nth_error (tasks s) t) as [tk|] eqn:Et.
+  - destruct (nth_error (jobs s) t) as [j|] eqn:Ej.
+    + destruct j; cbn [subscribing andb]; try exact Hc; destruct (handle_closed tk); cbn [fst]; try exact Hc.
+      * destruct Hc as (H1 & H2 & H3 & H4 & H5). repeat split; cbn; auto.
+      * destruct (existsb _ _); cbn [fst]; [|exact Hc].
+        destruct Hc as (H1 & H2 & H3 & H4 & H5). repeat split; cbn; auto.
+    + cbn [fst]. repeat split; auto. intros i tk' Hi. exists tk'. repeat split; auto.
+      intros [<-|[]] Hn. congruence.
+  - cbn [fst]. repeat split; auto. intros i tk' Hi. exists tk'. repeat split; auto.
+    intros [<-|[]] Hn. congruence.
+Qed.
+
+Lemma handles_eff_trans s s1 s2 a b : handles_eff s s1 a -> handles_eff s1 s2 b -> handles_eff s s2 (a ++ b).
+Proof.
+  intros (A1 & A2 & A3 & A4 & A5) (B1 & B2 & B3 & B4 & B5). repeat split; try congruence.
+  - destruct B4 as [B4|B4]; [rewrite B4; exact A4|right; exact B4].
+  - intros i tk2 H2. destruct (B5 i tk2 H2) as (tk1 & H1 & S1 & C1). destruct (A5 i tk1 H1) as (tk & H0 & S0 & C0).
+    exists tk. split; [exact H0|]. split.
+    + destruct S1 as [->| ->]; destruct S0 as [->| ->]; auto.
+    + intros Hin Hn. apply in_app_or in Hin. destruct Hin as [Hin|Hin].
+      * rewrite (C0 Hin Hn) in *. destruct S1 as [->| ->]; reflexivity.
+      * rewrite A1 in C1. rewrite (C1 Hin Hn). destruct S0 as [->| ->]; reflexivity.
+Qed.
+
+Lemma unsub_handles_eff o : forall ts s, handles_eff s (fst (unsub_handles o s ts)) ts.
+Proof.
+  induction ts as [|t r IH]; intros s; [apply handles_eff_refl|].
+  cbn [unsub_handles]. pose proof (unsub_handle_eff o s t) as E1.
+  destruct (unsub_handle o s t) as [s1 o1]. cbn [fst] in *.
+  pose proof (IH s1) as E2. destruct (unsub_handles o s1 r) as [s2 o2]. cbn [fst] in *.
+  apply (handles_eff_trans s s1 s2 [t] r E1 E2).
+Qed.
+
+Lemma unsub_handle_subscribed o s t tk :
+  nth_error (tasks s) t = Some tk -> nth_error (jobs s) t = Some JSubscribe -> t_value tk = true ->
+  src_on (fst (unsub_handle o s t)) = false.
+Proof.
+  intros Ht Hj Hv. unfold unsub_handle. rewrite Ht, Hj. cbn [subscribing andb]. unfold handle_closed. rewrite Hv. reflexivity.
+Qed.
+
+(* unsubscribing the subscription returned by actual_subscribe silences a live system *)
+Lemma live_unsub_silent o s : not_raw o -> LiveInv o s -> Silent (fst (on_unsub o s)).
+Proof.
+  intros Ho [L1 L2 L3 L4].
+  (* generic: disconnecting the input and cancelling a set of tasks that contains every covered one *)
+  assert (Gen : forall s', jobs s' = jobs s -> src_on s' = false ->
+                (alive s = false -> alive s' = false) ->
+                (forall i tk' , nth_error (tasks s') i = Some tk' ->
+                   exists tk, nth_error (tasks s) i = Some tk /\
+                     (tk' = tk \/ tk' = cancel tk) /\
+                     (forall j, nth_error (jobs s) i = Some j -> covered o s i j ->
+                                tk' = cancel tk \/ (alive s' = false /\ slot_job j = true))) ->
+                Silent s').
+  { intros s' Hj Hsrc Hal Hall. split; [exact Hsrc|]. intros i tk' j' Hi Hj'. rewrite Hj in Hj'.
+    destruct (Hall i tk' Hi) as (tk & Ht & Hsame & Hcov).
+    destruct (L2 i tk j' Ht Hj') as [Q|C].
+    - destruct Hsame as [->| ->]; [apply (quiet_mono s); auto|]. right. left. reflexivity.
+    - destruct (Hcov j' Hj' C) as [->|[A B]]; [right; left; reflexivity|right; right; auto]. }
+  (* the two relay operators: every handle in the MultiSubscription is unsubscribed *)
+  assert (Relay : (exists l, multi s = Some l) ->
+                  (forall i j, covered o s i j -> exists l, multi s = Some l /\ In i l) ->
+                  Silent (fst (let s1 := upd_src s false (src_done s) in
+                               match multi s1 with
+                               | Some l => unsub_handles o (upd_multi s1 None) l
+                               | None => (s1, [])
+                               end))).
+  { intros [l Hm] Hcov. cbn [upd_src multi]. rewrite Hm.
+    pose proof (unsub_handles_eff o l (upd_multi (upd_src s false (src_done s)) None)) as (E1 & E2 & E3 & E4 & E5).
+    cbn [upd_multi upd_src jobs alive tasks src_on] in *.
+    apply Gen; auto.
+    - destruct E4; assumption.
+    - intros Ha. rewrite E2. exact Ha.
+    - intros i tk' Hi. destruct (E5 i tk' Hi) as (tk & Ht & Hs & Hc). exists tk. repeat split; auto.
+      intros j Hj C. left. destruct (Hcov i j C) as (l' & Hl' & Hin). rewrite Hm in Hl'. inversion Hl'; subst l'.
+      apply Hc; [exact Hin|congruence]. }
+  (* operators whose subscription is one task handle *)
+  assert (Main : forall s0, jobs s0 = jobs s -> tasks s0 = tasks s -> alive s0 = alive s -> main_task s0 = main_task s ->
+                  (forall i j, covered o s i j -> main_task s = Some i) ->
+                  forall s', (match main_task s with Some t => s' = fst (unsub_handle o s0 t) | None => s' = s0 end) ->
+                  (src_on s' = false) -> Silent s').
+  { intros s0 J0 T0 A0 M0 Hcov s' Hs' Hsrc. apply Gen; auto.
+    - destruct (main_task s) as [t|]; subst s'; [|congruence].
+      pose proof (unsub_handle_eff o s0 t) as (E1 & _). congruence.
+    - destruct (main_task s) as [t|]; subst s'; [|intros; congruence].
+      pose proof (unsub_handle_eff o s0 t) as (_ & E2 & _). intros Ha. congruence.
+    - intros i tk' Hi. destruct (main_task s) as [t|] eqn:Em; subst s'.
+      + pose proof (unsub_handle_eff o s0 t) as (E1 & E2 & E3 & E4 & E5).
+        destruct (E5 i tk' Hi) as (tk & Ht & Hs & Hc). rewrite T0 in Ht. exists tk. repeat split; auto.
+        intros j Hj C. left. pose proof (Hcov i j C) as Hm. inversion Hm; subst i.
+        apply Hc; [left; reflexivity|]. rewrite J0. congruence.
+      + rewrite T0 in Hi. exists tk'. repeat split; auto. intros j Hj C. pose proof (Hcov i j C). congruence. }
+  (* src_on after unsubscribing the main task's handle *)
+  assert (SrcMain : forall t, main_task s = Some t ->
+                    (src_on s = false \/ exists tk, nth_error (tasks s) 0 = Some tk /\ t_value tk = true /\
+                                                     nth_error (jobs s) 0 = Some JSubscribe /\ main_task s = Some 0%nat) ->
+                    src_on (fst (unsub_handle o s t)) = false).
+  { intros t Hm [Hf|(tk & Ht & Hv & Hj & Hm0)].
+    - pose proof (unsub_handle_eff o s t) as (_ & _ & _ & E4 & _). destruct E4; congruence.
+    - rewrite Hm in Hm0. inversion Hm0; subst t. apply (unsub_handle_subscribed o s 0%nat tk Ht Hj Hv). }
+  destruct o; try contradiction; cbn [on_unsub].
+  - (* delay *) apply Relay; [exact L3|intros i j C; exact C].
+  - (* observe_on *) apply Relay; [exact L3|intros i j C; exact C].
+  - (* delay_subscription *)
+    cbn [src_guard] in L3. destruct L3 as (Gm & Gj & Gs).
+    apply (Main s eq_refl eq_refl eq_refl eq_refl (fun i j C => C)).
+    + destruct (main_task s); reflexivity.
+    + rewrite Gm. apply SrcMain; [exact Gm|]. destruct (src_on s) eqn:Es; [|left; reflexivity].
+      right. destruct (Gs eq_refl) as (tk & Ht & Hv). exists tk. auto.
+  - (* subscribe_on *)
+    cbn [src_guard] in L3. destruct L3 as (Gm & Gj & Gs).
+    apply (Main s eq_refl eq_refl eq_refl eq_refl (fun i j C => C)).
+    + destruct (main_task s); reflexivity.
+    + rewrite Gm. apply SrcMain; [exact Gm|]. destruct (src_on s) eqn:Es; [|left; reflexivity].
+      right. destruct (Gs eq_refl) as (tk & Ht & Hv). exists tk. auto.
+  - (* debounce *)
+    cbn [upd_src handler].
+    destruct (handler s) as [h|] eqn:Eh; cbn [fst].
+    + pose proof (cancel_task_shape (upd_src s false (src_done s)) h) as (C1 & C2 & C3 & C4 & C5 & C6 & C7 & C8 & C9).
+      cbn [upd_src jobs alive tasks src_on] in *.
+      apply Gen; cbn [upd_handler jobs src_on alive]; auto.
+      * intros Ha. rewrite C2. exact Ha.
+      * intros i tk' Hi. cbn [upd_handler tasks] in Hi. destruct (Nat.eq_dec i h) as [->|Hne].
+        -- destruct (nth_error (tasks s) h) as [tk|] eqn:Et.
+           ++ rewrite (C9 tk eq_refl) in Hi. inversion Hi; subst. exists tk. repeat split; auto.
+           ++ unfold cancel_task in Hi. cbn [upd_src tasks] in Hi. rewrite Et in Hi. cbn in Hi. congruence.
+        -- rewrite (C8 i Hne) in Hi. exists tk'. repeat split; auto. intros j Hj C. cbn [covered] in C. congruence.
+    + apply Gen; cbn; auto. intros i tk' Hi. exists tk'. repeat split; auto. intros j Hj C. cbn [covered] in C. congruence.
+  - (* throttle *)
+    cbn [fst]. apply Gen; cbn; auto. intros i tk' Hi. exists tk'. repeat split; auto.
+  - (* buffer_with_time *)
+    destruct (main_task s) as [t|] eqn:Em.
+    + pose proof (unsub_handle_eff (TBufferTime d) s t) as (E1 & E2 & E3 & E4 & E5).
+      destruct (unsub_handle (TBufferTime d) s t) as [s1 o1]. cbn [fst snd] in *.
+      apply Gen; cbn; auto; [congruence|].
+      intros i tk' Hi. destruct (E5 i tk' Hi) as (tk & Ht & Hs & Hc). exists tk. repeat split; auto.
+      intros j Hj C. cbn [covered] in C. rewrite Em in C. inversion C; subst i. left. apply Hc; [left; reflexivity|congruence].
+    + cbn [fst]. apply Gen; cbn; auto. intros i tk' Hi. exists tk'. repeat split; auto. intros j Hj C. cbn [covered] in C. congruence.
+  - (* buffer_with_count_and_time *)
+    destruct (main_task s) as [t|] eqn:Em.
+    + pose proof (unsub_handle_eff (TBufferCountTime count d) s t) as (E1 & E2 & E3 & E4 & E5).
+      destruct (unsub_handle (TBufferCountTime count d) s t) as [s1 o1]. cbn [fst snd] in *.
+      apply Gen; cbn; auto; [congruence|].
+      intros i tk' Hi. destruct (E5 i tk' Hi) as (tk & Ht & Hs & Hc). exists tk. repeat split; auto.
+      intros j Hj C. cbn [covered] in C. rewrite Em in C. inversion C; subst i. left. apply Hc; [left; reflexivity|congruence].
+    + cbn [fst]. apply Gen; cbn; auto. intros i tk' Hi. exists tk'. repeat split; auto. intros j Hj C. cbn [covered] in C. congruence.
+  - (* interval *)
+    cbn [src_guard] in L3. apply (Main s eq_refl eq_refl eq_refl eq_refl (fun i j C => C)).
+    + destruct (main_task s); reflexivity.
+    + destruct (main_task s) as [t|] eqn:Em; [apply SrcMain; auto|exact L3].
+  - (* interval_at *)
+    cbn [src_guard] in L3. apply (Main s eq_refl eq_refl eq_refl eq_refl (fun i j C => C)).
+    + destruct (main_task s); reflexivity.
+    + destruct (main_task s) as [t|] eqn:Em; [apply SrcMain; auto|exact L3].
+  - (* timer *)
+    cbn [src_guard] in L3. apply (Main s eq_refl eq_refl eq_refl eq_refl (fun i j C => C)).
+    + destruct (main_task s); reflexivity.
+    + destruct (main_task s) as [t|] eqn:Em; [apply SrcMain; auto|exact L3].
+Qed.
+
+(* ---- LiveInv is preserved by every label but unsubscribe ---- *)
+
+Definition status_quiet (tk : task) : Prop := t_stage tk = StFinished \/ t_keep tk = false.
+
+Lemma nth_error_app_last {A} (l : list A) x : nth_error (l ++ [x]) (length l) = Some x.
+Proof. induction l; cbn; auto. Qed.
+
+Lemma nth_error_app_old {A} (l : list A) x i y : nth_error (l ++ [x]) i = Some y -> (i < length l)%nat -> nth_error l i = Some y.
+Proof. intros H Hl. rewrite nth_error_app1 in H by exact Hl. exact H. Qed.
+
+(* fields the invariant does not read may change freely *)
+Lemma li_upd o s s' :
+  LiveInv o s -> tasks s' = tasks s -> jobs s' = jobs s -> multi s' = multi s -> handler s' = handler s ->
+  main_task s' = main_task s -> (alive s = false -> alive s' = false) -> src_guard o s' -> LiveInv o s'.
+Proof.
+  intros [L1 L2 L3 L4] Ht Hj Hm Hh Hmt Ha Hg. split.
+  - congruence.
+  - intros i tk j Hi Hjj. rewrite Ht in Hi. rewrite Hj in Hjj. destruct (L2 i tk j Hi Hjj) as [Q|C].
+    + left. apply (quiet_mono s); auto.
+    + right. destruct o; cbn [covered] in *; try congruence. 
+      * destruct C as (l & Hl & Hin). exists l. split; [congruence|exact Hin].
+      * destruct C as (l & Hl & Hin). exists l. split; [congruence|exact Hin].
+  - exact Hg.
+  - intros i Hi. rewrite Hj in Hi. apply L4, Hi.
+Qed.
+
+(* replacing the state of one task by one that is quiet whenever the old one was *)
+Lemma li_set_task o s t tk tk' :
+  LiveInv o s -> nth_error (tasks s) t = Some tk -> (status_quiet tk -> status_quiet tk') ->
+  (match o with TDelaySubscription _ | TSubscribeOn => t = 0%nat -> t_value tk = true -> t_value tk' = true | _ => True end) ->
+  LiveInv o (upd_tasks s (set_nth (tasks s) t tk')).
+Proof.
+  intros [L1 L2 L3 L4] Ht Hq Hv. split; cbn [upd_tasks tasks jobs].
+  - rewrite set_nth_length. exact L1.
+  - intros i tk2 j Hi Hj. destruct (Nat.eq_dec t i) as [<-|Hne].
+    + rewrite (nth_error_set_nth_eq _ _ _ _ Ht) in Hi. inversion Hi; subst tk2.
+      destruct (L2 t tk j Ht Hj) as [[Q|[Q|[Q1 Q2]]]|C].
+      * left. destruct (Hq (or_introl Q)); [left|right; left]; assumption.
+      * left. destruct (Hq (or_intror Q)); [left|right; left]; assumption.
+      * left. right. right. auto.
+      * right. destruct o; cbn [covered] in *; auto.
+    + rewrite nth_error_set_nth_neq in Hi by exact Hne. destruct (L2 i tk2 j Hi Hj) as [Q|C].
+      * left. destruct Q as [Q|[Q|[Q1 Q2]]]; [left|right; left|right; right]; auto.
+      * right. destruct o; cbn [covered] in *; auto.
+  - destruct o; cbn [src_guard upd_tasks tasks jobs src_on main_task multi] in *; auto.
+    + destruct L3 as (G1 & G2 & G3). repeat split; auto. intros Hs. destruct (G3 Hs) as (tk0 & Ht0 & Hv0).
+      destruct (Nat.eq_dec t 0) as [->|Hne].
+      * rewrite Ht in Ht0. inversion Ht0; subst tk0. exists tk'. split; [apply (nth_error_set_nth_eq _ _ _ _ Ht)|auto].
+      * exists tk0. split; [rewrite nth_error_set_nth_neq by exact Hne; exact Ht0|exact Hv0].
+    + destruct L3 as (G1 & G2 & G3). repeat split; auto. intros Hs. destruct (G3 Hs) as (tk0 & Ht0 & Hv0).
+      destruct (Nat.eq_dec t 0) as [->|Hne].
+      * rewrite Ht in Ht0. inversion Ht0; subst tk0. exists tk'. split; [apply (nth_error_set_nth_eq _ _ _ _ Ht)|auto].
+      * exists tk0. split; [rewrite nth_error_set_nth_neq by exact Hne; exact Ht0|exact Hv0].
+  - exact L4.
+Qed.
+
+Lemma poll_status now tk : status_quiet tk -> status_quiet (fst (poll now tk)).
+Proof. intros H. destruct (poll_quiet now tk H) as [_ P]. exact P. Qed.
+
+Lemma poll_value now tk : t_value tk = true -> t_value (fst (poll now tk)) = true.
+Proof.
+  intros H. unfold poll, poll_body. destruct (t_stage tk); cbn; destruct (t_keep tk); cbn; auto;
+    repeat match goal with
+           | |- context [if ?c then _ else _] => destruct c; cbn; auto
+           | |- context [match t_body tk with _ => _ end] => destruct (t_body tk); cbn; auto
+           end.
+Qed.
+
+Lemma after_tick_status now tk c : status_quiet tk -> status_quiet (after_tick now tk c).
+Proof. unfold status_quiet, after_tick. intros H. destruct (t_body tk); [exact H|]. destruct c; cbn; auto. Qed.
+
+Lemma after_tick_value now tk c : t_value tk = true -> t_value (after_tick now tk c) = true.
+Proof. unfold after_tick. intros H. destruct (t_body tk); [exact H|]. destruct c; cbn; auto. Qed.
+
+(* a one-shot task that ran is finished with its value stored *)
+Lemma poll_once_ran now tk j seq : snd (poll now tk) = PRun j seq false -> t_value (fst (poll now tk)) = true.
+Proof.
+  unfold poll, poll_body. destruct (t_stage tk); cbn; destruct (t_keep tk); cbn; try discriminate;
+    repeat match goal with
+           | |- context [if ?c then _ else _] => destruct c; cbn; try discriminate
+           | |- context [match t_body tk with _ => _ end] => destruct (t_body tk); cbn; try discriminate
+           end; auto.
+Qed.
+
+(* scheduling a new task that the subscription covers *)
+Lemma li_schedule o s b j delay :
+  LiveInv o s -> j <> JSubscribe ->
+  let '(s1, id) := schedule s b j delay in
+  id = length (tasks s) /\
+  forall s2, tasks s2 = tasks s1 -> jobs s2 = jobs s1 -> (alive s = false -> alive s2 = false) ->
+             (forall i j', (i < length (tasks s))%nat -> covered o s i j' -> covered o s2 i j') ->
+             covered o s2 id j -> src_guard o s2 -> LiveInv o s2.
+Proof.
+  intros [L1 L2 L3 L4] Hnj. cbn [schedule]. split; [reflexivity|].
+  intros s2 Ht Hj Ha Hold Hnew Hg. cbn [tasks jobs] in Ht, Hj. split.
+  - rewrite Ht, Hj, !app_length, L1. reflexivity.
+  - intros i tk j' Hi Hj'. rewrite Ht in Hi. rewrite Hj in Hj'.
+    destruct (Nat.lt_ge_cases i (length (tasks s))) as [Hlt|Hge].
+    + apply nth_error_app_old in Hi; [|exact Hlt]. apply nth_error_app_old in Hj'; [|rewrite L1; exact Hlt].
+      destruct (L2 i tk j' Hi Hj') as [Q|C]; [left; apply (quiet_mono s); auto|right; apply Hold; auto].
+    + assert (i = length (tasks s)).
+      { assert (i < length (tasks s ++ [spawn (b (length (tasks s))) delay]))%nat by (apply nth_error_Some; congruence).
+        rewrite app_length in H. cbn in H. lia. }
+      subst i. right. rewrite <- L1 in Hj'. rewrite nth_error_app_last in Hj'. inversion Hj'; subst j'. exact Hnew.
+  - exact Hg.
+  - intros i Hi. rewrite Hj in Hi.
+    destruct (Nat.lt_ge_cases i (length (jobs s))) as [Hlt|Hge].
+    + apply nth_error_app_old in Hi; [|exact Hlt]. apply L4, Hi.
+    + assert (i = length (jobs s)).
+      { assert (i < length (jobs s ++ [j]))%nat by (apply nth_error_Some; congruence). rewrite app_length in H. cbn in H. lia. }
+      subst i. rewrite nth_error_app_last in Hi. congruence.
+Qed.
+
+Lemma on_job_shape o s t j seq :
+  let '(s1, out, c) := on_job o s t j seq in
+  tasks s1 = tasks s /\ jobs s1 = jobs s /\ multi s1 = multi s /\ handler s1 = handler s /\ main_task s1 = main_task s /\
+  (alive s = false -> alive s1 = false) /\
+  (j = JSubscribe -> src_on s1 = true /\ c = false) /\ (j <> JSubscribe -> src_on s1 = src_on s).
+Proof.
+  destruct j; cbn [on_job]; unfold slot_next, slot_term, buffer_emit;
+    repeat match goal with
+           | |- context [if ?c then _ else _] => destruct c eqn:?; cbn
+           | |- context [match trailing s with _ => _ end] => destruct (trailing s); cbn
+           | |- context [match data s with _ => _ end] => destruct (data s); cbn
+           end; repeat split; auto; try congruence; intros; try congruence; try discriminate.
+Qed.
+
+Lemma li_src_change o s on done :
+  LiveInv o s -> (on = true -> match o with TDelaySubscription _ | TSubscribeOn | TInterval _ | TIntervalAt _ _ | TTimer _ _ => False | _ => True end) ->
+  LiveInv o (upd_src s on done).
+Proof.
+  intros L Hon. apply (li_upd o s); auto. destruct L as [L1 L2 L3 L4].
+  destruct o; cbn [src_guard upd_src src_on main_task jobs tasks multi] in *; auto;
+    try (destruct L3 as (G1 & G2 & G3); repeat split; auto; intros ->; exfalso; apply Hon; reflexivity);
+    try (destruct on; [exfalso; apply Hon; reflexivity|reflexivity]).
+Qed.
+
+Lemma job_eq_subscribe (j : job) : {j = JSubscribe} + {j <> JSubscribe}.
+Proof. destruct j; (left; reflexivity) || (right; discriminate). Qed.
+
+Lemma set_nth_idem {A} (l : list A) i x y : set_nth (set_nth l i x) i y = set_nth l i y.
+Proof. revert i. induction l as [|a l IH]; intros [|i]; cbn; auto. f_equal. apply IH. Qed.
+
+Lemma set_nth_same {A} (l : list A) i x : nth_error l i = Some x -> set_nth l i x = l.
+Proof. revert i. induction l as [|a l IH]; intros [|i] H; cbn in *; try discriminate; auto; [congruence|f_equal; auto]. Qed.
+
+(* a repeating run comes from a repeating body *)
+Lemma poll_repeat_body now tk j seq :
+  snd (poll now tk) = PRun j seq true -> exists p due, t_body (fst (poll now tk)) = BRepeat j p due seq.
+Proof.
+  unfold poll, poll_body. destruct (t_stage tk); cbn; destruct (t_keep tk); cbn; try discriminate;
+    destruct (t_body tk) eqn:Eb; cbn; try discriminate;
+    repeat match goal with
+           | |- context [if ?c then _ else _] => destruct c; cbn; try discriminate
+           end; rewrite ?Eb; cbn; try discriminate; intros H; inversion H; subst; eauto.
+Qed.
+
+Lemma live_step_run o s t : not_raw o -> LiveInv o s -> LiveInv o (fst (tstep o s (LRun t))).
+Proof.
+  intros Ho L. cbn [tstep].
+  destruct (nth_error (tasks s) t) as [tk|] eqn:Et; [|exact L].
+  destruct (nth_error (jobs s) t) as [j|] eqn:Ej; [|exact L].
+  pose proof (poll_status (now s) tk) as PS. pose proof (poll_value (now s) tk) as PV.
+  pose proof (poll_once_ran (now s) tk) as PO. pose proof (poll_repeat_body (now s) tk) as PR.
+  destruct (poll (now s) tk) as [tk1 res]. cbn [fst snd] in *.
+  assert (L1 : LiveInv o (upd_tasks s (set_nth (tasks s) t tk1))).
+  { apply (li_set_task o s t tk tk1 L Et PS). destruct o; auto. }
+  destruct res as [|jn seq rep]; [exact L1|].
+  set (s1 := upd_tasks s (set_nth (tasks s) t tk1)) in *.
+  pose proof (on_job_shape o s1 t j seq) as SH.
+  destruct (on_job o s1 t j seq) as [[s2 out] c]. destruct SH as (S1 & S2 & S3 & S4 & S5 & S6 & S7 & S8).
+  assert (Ht1 : nth_error (tasks s1) t = Some tk1) by (unfold s1; cbn; apply (nth_error_set_nth_eq _ _ _ _ Et)).
+  assert (Hj1 : nth_error (jobs s1) t = Some j) by exact Ej.
+  destruct (L1) as [A1 A2 A3 A4].
+  assert (Hsub : j = JSubscribe -> t = 0%nat /\ match o with TDelaySubscription _ | TSubscribeOn => True | _ => False end).
+  { intros ->. apply (A4 t Hj1). }
+  (* the invariant for any final state that is s2 with task t replaced by a tkf that keeps quietness and,
+     if j = JSubscribe, has its value stored *)
+  assert (Key : forall sf tkf,
+            tasks sf = set_nth (tasks s1) t tkf -> jobs sf = jobs s2 -> multi sf = multi s2 -> handler sf = handler s2 ->
+            main_task sf = main_task s2 -> (alive s2 = false -> alive sf = false) -> src_on sf = src_on s2 ->
+            (status_quiet tk1 -> status_quiet tkf) -> (t_value tk1 = true -> t_value tkf = true) ->
+            (j = JSubscribe -> t_value tkf = true) -> LiveInv o sf).
+  { intros sf tkf F1 F2 F3 F4 F5 F6 F7 Hq Hv Hjs.
+    assert (L2 : LiveInv o (upd_tasks s1 (set_nth (tasks s1) t tkf))).
+    { apply (li_set_task o s1 t tk1 tkf L1 Ht1 Hq). destruct o; auto. }
+    apply (li_upd o (upd_tasks s1 (set_nth (tasks s1) t tkf))); cbn [upd_tasks tasks jobs multi handler main_task alive]; auto; try congruence.
+    destruct L2 as [B1 B2 B3 B4].
+    destruct o; cbn [src_guard upd_tasks tasks jobs main_task multi src_on] in *; auto; try contradiction.
+    - destruct B3 as (l & Hl). exists l. congruence.
+    - destruct B3 as (l & Hl). exists l. congruence.
+    - destruct B3 as (G1 & G2 & G3). rewrite F5, F2, S5, S2, F1. repeat split; auto. intros Hs2. rewrite F7 in Hs2.
+      destruct (job_eq_subscribe j) as [Ejs|Ejs].
+      + destruct (Hsub Ejs) as [-> _]. exists tkf. split; [apply (nth_error_set_nth_eq _ _ _ _ Ht1)|auto].
+      + rewrite (S8 Ejs) in Hs2. apply G3, Hs2.
+    - destruct B3 as (G1 & G2 & G3). rewrite F5, F2, S5, S2, F1. repeat split; auto. intros Hs2. rewrite F7 in Hs2.
+      destruct (job_eq_subscribe j) as [Ejs|Ejs].
+      + destruct (Hsub Ejs) as [-> _]. exists tkf. split; [apply (nth_error_set_nth_eq _ _ _ _ Ht1)|auto].
+      + rewrite (S8 Ejs) in Hs2. apply G3, Hs2.
+    - destruct (job_eq_subscribe j) as [Ejs|Ejs]; [destruct (Hsub Ejs) as [_ []]|]. rewrite F7, (S8 Ejs). exact B3.
+    - destruct (job_eq_subscribe j) as [Ejs|Ejs]; [destruct (Hsub Ejs) as [_ []]|]. rewrite F7, (S8 Ejs). exact B3.
+    - destruct (job_eq_subscribe j) as [Ejs|Ejs]; [destruct (Hsub Ejs) as [_ []]|]. rewrite F7, (S8 Ejs). exact B3. }
+  destruct rep.
+  - destruct (nth_error (tasks s2) t) as [tk2|] eqn:Et2; cbn [fst].
+    + rewrite S1, Ht1 in Et2. inversion Et2; subst tk2.
+      apply (Key _ (after_tick (now s2) tk1 c)); cbn [upd_tasks tasks jobs multi handler main_task alive src_on]; auto.
+      * rewrite S1. reflexivity.
+      * apply after_tick_status.
+      * apply after_tick_value.
+      * intros Ejs. destruct (S7 Ejs) as [_ ->]. destruct (PR jn seq eq_refl) as (p & due & Hb).
+        unfold after_tick. rewrite Hb. reflexivity.
+    + rewrite S1, Ht1 in Et2. discriminate.
+  - cbn [fst]. apply (Key s2 tk1); auto.
+    + rewrite S1. symmetry. apply set_nth_same. exact Ht1.
+    + intros _. apply (PO jn seq). reflexivity.
+Qed.
+
+Lemma li_cancel o s t :
+  match o with TDelaySubscription _ | TSubscribeOn => False | _ => True end ->
+  LiveInv o s -> LiveInv o (cancel_task s t).
+Proof.
+  intros Hop L. unfold cancel_task. destruct (nth_error (tasks s) t) as [tk|] eqn:Et; [|exact L].
+  apply (li_set_task o s t tk (cancel tk) L Et).
+  - intros _. right. reflexivity.
+  - destruct o; auto; contradiction.
+Qed.
+
+Lemma li_slot_term o s e : LiveInv o s -> LiveInv o (fst (slot_term s e)).
+Proof.
+  intros L. unfold slot_term. destruct (alive s) eqn:Ea; [|exact L]. cbn [fst].
+  apply (li_upd o s); cbn; auto. destruct L as [_ _ G _]. destruct o; cbn [src_guard] in *; auto.
+Qed.
+
+Lemma li_slot_next o s v : LiveInv o s -> LiveInv o (fst (slot_next s v)).
+Proof. intros L. exact L. Qed.
+
+Lemma li_fields o s s' :
+  LiveInv o s -> tasks s' = tasks s -> jobs s' = jobs s -> multi s' = multi s -> handler s' = handler s ->
+  main_task s' = main_task s -> alive s' = alive s -> src_on s' = src_on s -> LiveInv o s'.
+Proof.
+  intros L H1 H2 H3 H4 H5 H6 H7. apply (li_upd o s); auto; [congruence|].
+  destruct L as [_ _ G _]. destruct o; cbn [src_guard] in *; auto; try congruence.
+  - destruct G as (l & Hl). exists l. congruence.
+  - destruct G as (l & Hl). exists l. congruence.
+  - rewrite H5, H2, H7, H1. exact G.
+  - rewrite H5, H2, H7, H1. exact G.
+Qed.
+
+Lemma li_buffer_emit o s : LiveInv o s -> LiveInv o (fst (buffer_emit s)).
+Proof.
+  intros L. unfold buffer_emit. destruct (alive s); [|exact L]. destruct (data s); [exact L|]. cbn [fst].
+  apply (li_fields o s); auto.
+Qed.
+
+Lemma schedule_fields s b j delay :
+  alive (fst (schedule s b j delay)) = alive s /\ multi (fst (schedule s b j delay)) = multi s /\
+  handler (fst (schedule s b j delay)) = handler s /\ main_task (fst (schedule s b j delay)) = main_task s /\
+  src_on (fst (schedule s b j delay)) = src_on s.
+Proof. cbn. auto. Qed.
+
+(* relay operators: a new task whose handle is appended to the MultiSubscription *)
+Lemma li_relay_schedule o s j :
+  (match o with TDelay _ | TObserveOn => True | _ => False end) -> LiveInv o s -> j <> JSubscribe ->
+  forall delay, LiveInv o (append_multi (fst (schedule s BOnce j delay)) (snd (schedule s BOnce j delay))).
+Proof.
+  intros Hop L Hj delay. pose proof (li_schedule o s BOnce j delay L Hj) as P.
+  destruct (schedule s BOnce j delay) as [s1 id] eqn:Es. destruct P as [Hid P]. cbn [fst snd].
+  assert (Hm : exists l, multi s = Some l) by (destruct L as [_ _ G _]; destruct o; try contradiction; exact G).
+  destruct Hm as [l Hl].
+  assert (Hm1 : multi s1 = Some l) by (unfold schedule in Es; inversion Es; subst; cbn; exact Hl).
+  assert (Ha1 : alive s1 = alive s) by (unfold schedule in Es; inversion Es; subst; reflexivity).
+  unfold append_multi. rewrite Hm1.
+  apply P; [reflexivity|reflexivity|cbn; intros Ha; rewrite Ha1; exact Ha| | |].
+  - intros i j' Hi C. destruct o; try contradiction; cbn [covered] in *;
+      destruct C as (l0 & Hl0 & Hin); rewrite Hl in Hl0; inversion Hl0; subst l0;
+      exists (l ++ [id]); split; auto; apply in_or_app; left; exact Hin.
+  - destruct o; try contradiction; cbn [covered]; exists (l ++ [id]); split; auto; apply in_or_app; right; left; reflexivity.
+  - destruct o; try contradiction; cbn [src_guard upd_multi multi]; eexists; reflexivity.
+Qed.
+
+Lemma live_on_src o s e : not_raw o -> LiveInv o s -> LiveInv o (fst (on_src o s e)).
+Proof.
+  intros Ho L. destruct o; try contradiction; cbn [on_src]; try exact L.
+  - (* delay *)
+    destruct e as [v|x|].
+    + pose proof (li_relay_schedule (TDelay d) s (JEmit v) I L ltac:(discriminate) (Some d)) as P.
+      destruct (schedule s BOnce (JEmit v) (Some d)). exact P.
+    + apply li_slot_term, L.
+    + pose proof (li_relay_schedule (TDelay d) s JComplete I L ltac:(discriminate) (Some d)) as P.
+      destruct (schedule s BOnce JComplete (Some d)). exact P.
+  - (* observe_on *)
+    set (j := match e with Next v => JEmit v | Err x => JEmitErr x | Done => JComplete end).
+    assert (Hj : j <> JSubscribe) by (destruct e; discriminate).
+    pose proof (li_relay_schedule TObserveOn s j I L Hj None) as P.
+    destruct (schedule s BOnce j None). exact P.
+  - (* debounce *)
+    destruct e as [v|x|].
+    + set (s1 := upd_trailing s (Some v)).
+      assert (L1 : LiveInv (TDebounce d) s1) by (apply (li_fields _ s); auto).
+      set (s2 := match handler s1 with Some h => upd_handler (cancel_task s1 h) None | None => s1 end).
+      (* after cancelling the pending window every task is quiet and no handle is stored *)
+      assert (L2 : LiveInv (TDebounce d) s2 /\ handler s2 = None).
+      { unfold s2. destruct (handler s1) as [h|] eqn:Eh; [|split; [exact L1|exact Eh]]. split; [|reflexivity].
+        pose proof (li_cancel (TDebounce d) s1 h I L1) as Lc. destruct Lc as [C1 C2 C3 C4].
+        pose proof (cancel_task_shape s1 h) as (K1 & K2 & K3 & K4 & K5 & K6 & K7 & K8 & K9).
+        split; cbn [upd_handler tasks jobs]; auto.
+        intros i tk j Hi Hj. destruct (C2 i tk j Hi Hj) as [Q|C]; [left; exact Q|].
+        cbn [covered] in C. rewrite K4, Eh in C. inversion C; subst i.
+        destruct (nth_error (tasks s1) h) as [tk0|] eqn:Et0.
+        - rewrite (K9 tk0 eq_refl) in Hi. inversion Hi; subst tk. left. right. left. reflexivity.
+        - unfold cancel_task in Hi. rewrite Et0 in Hi. congruence. }
+      destruct L2 as [L2 Hh2].
+      pose proof (li_schedule (TDebounce d) s2 BOnce JTrailing (Some d) L2 ltac:(discriminate)) as P.
+      destruct (schedule s2 BOnce JTrailing (Some d)) as [s3 id] eqn:Es. destruct P as [Hid P]. cbn [fst].
+      assert (Ha3 : alive s3 = alive s2) by (unfold schedule in Es; inversion Es; subst; reflexivity).
+      apply P; [reflexivity|reflexivity|cbn; intros Ha; rewrite Ha3; exact Ha| |cbn; reflexivity|cbn; exact I].
+      intros i j' Hi C. cbn [covered] in C. congruence.
+    + apply li_slot_term, L.
+    + destruct (trailing s) as [v|].
+      * unfold slot_next. cbn [fst snd]. 
+        pose proof (li_slot_term (TDebounce d) (upd_trailing s None) Done) as P.
+        destruct (slot_term (upd_trailing s None) Done) as [s2 o2]. cbn [fst] in *. apply P. apply (li_fields _ s); auto.
+      * pose proof (li_slot_term (TDebounce d) s Done L) as P. destruct (slot_term s Done). exact P.
+  - (* throttle *)
+    destruct e as [v|x|].
+    + set (closed := match handler s with Some h => task_finished s h | None => true end).
+      set (s1 := match e0 with ELeading => s | ETailing => upd_trailing s (Some v) | EAll => if closed then s else upd_trailing s (Some v) end).
+      assert (L1 : LiveInv (TThrottle d e0) s1).
+      { unfold s1. destruct e0; [exact L|apply (li_fields _ s); auto|destruct closed; [exact L|apply (li_fields _ s); auto]]. }
+      destruct closed; [|exact L1].
+      assert (L2 : LiveInv (TThrottle d e0) (fst (match e0 with ETailing => (s1, []) | _ => slot_next s1 v end))).
+      { destruct e0; exact L1. }
+      destruct (match e0 with ETailing => (s1, []) | _ => slot_next s1 v end) as [s2 o2]. cbn [fst] in L2.
+      pose proof (li_schedule (TThrottle d e0) s2 BOnce JTrailing (Some d) L2 ltac:(discriminate)) as P.
+      destruct (schedule s2 BOnce JTrailing (Some d)) as [s3 id] eqn:Es. destruct P as [Hid P]. cbn [fst].
+      assert (Ha3 : alive s3 = alive s2) by (unfold schedule in Es; inversion Es; subst; reflexivity).
+      apply P; [reflexivity|reflexivity|cbn; intros Ha; rewrite Ha3; exact Ha|intros i j' Hi C; exact C|cbn; reflexivity|cbn; exact I].
+    + pose proof (li_slot_term (TThrottle d e0) s (Err x) L) as P.
+      destruct (slot_term s (Err x)) as [s1 o1]. cbn [fst] in *.
+      destruct (handler s1); [apply li_cancel; auto|exact P].
+    + assert (L1 : LiveInv (TThrottle d e0) (fst (match trailing s with Some v => slot_next (upd_trailing s None) v | None => (s, []) end))).
+      { destruct (trailing s); cbn [fst slot_next]; [apply (li_fields _ s); auto|exact L]. }
+      destruct (match trailing s with Some v => slot_next (upd_trailing s None) v | None => (s, []) end) as [s1 o1]. cbn [fst] in L1.
+      assert (L2 : LiveInv (TThrottle d e0) (match handler s1 with Some h => cancel_task s1 h | None => s1 end)).
+      { destruct (handler s1); [apply li_cancel; auto|exact L1]. }
+      pose proof (li_slot_term (TThrottle d e0) _ Done L2) as P.
+      destruct (slot_term (match handler s1 with Some h => cancel_task s1 h | None => s1 end) Done). exact P.
+  - (* buffer_with_time *)
+    destruct e as [v|x|].
+    + cbn [fst]. destruct (alive s); [apply (li_fields _ s); auto|exact L].
+    + apply li_slot_term, L.
+    + pose proof (li_buffer_emit _ s L) as P. destruct (buffer_emit s) as [s1 o1]. cbn [fst] in P.
+      pose proof (li_slot_term _ s1 Done P) as P2. destruct (slot_term s1 Done). exact P2.
+  - (* buffer_with_count_and_time *)
+    destruct e as [v|x|].
+    + destruct (alive s) eqn:Ea; [|exact L].
+      assert (L1 : LiveInv (TBufferCountTime count d) (upd_data s (data s ++ [v]))) by (apply (li_fields _ s); auto).
+      destruct (Nat.leb count (length (data (upd_data s (data s ++ [v]))))); [apply li_buffer_emit, L1|exact L1].
+    + apply li_slot_term, L.
+    + pose proof (li_buffer_emit _ s L) as P. destruct (buffer_emit s) as [s1 o1]. cbn [fst] in P.
+      pose proof (li_slot_term _ s1 Done P) as P2. destruct (slot_term s1 Done). exact P2.
+Qed.
+
+Lemma live_step o s l : not_raw o -> LiveInv o s -> l <> LUnsub -> LiveInv o (fst (tstep o s l)).
+Proof.
+  intros Ho L Hl. destruct l; try congruence.
+  - (* LSrc *)
+    cbn [tstep]. destruct (src_done s); [exact L|].
+    destruct (src_on s) eqn:Es.
+    + apply live_on_src; [exact Ho|]. destruct (is_term e); [|exact L]. apply li_src_change; [exact L|discriminate].
+    + cbn [fst]. destruct (is_term e); [|exact L]. apply li_src_change; [exact L|discriminate].
+  - apply live_step_run; assumption.
+  - cbn [tstep fst]. apply (li_fields o s); auto.
+  - exact L.
+  - cbn [tstep fst]. apply (li_fields o s); auto.
+  - destruct o; try contradiction; exact L.
+  - destruct o; try contradiction; exact L.
+  - destruct o; try contradiction; exact L.
+  - destruct o; try contradiction; exact L.
+  - destruct o; try contradiction; exact L.
+Qed.
+
+Lemma live_init o : not_raw o -> LiveInv o (tinit o).
+Proof.
+  intros Ho. destruct o; try contradiction; cbn [tinit schedule]; split; cbn; auto;
+    try (intros [|[|i]] tk j Hi Hj; cbn in *; try discriminate; right; reflexivity);
+    try (intros [|[|i]] tk j Hi Hj; cbn in *; discriminate);
+    try (intros [|[|i]] Hi; cbn in *; try discriminate; auto);
+    try (eexists; reflexivity);
+    try (repeat split; auto; discriminate).
+Qed.
+
+Fixpoint tfinal (o : top) (s : tsys) (ls : list tlab) : tsys :=
+  match ls with [] => s | l :: r => tfinal o (fst (tstep o s l)) r end.
+
+Lemma inv_reach o ls : not_raw o -> forall s, (LiveInv o s \/ Silent s) -> LiveInv o (tfinal o s ls) \/ Silent (tfinal o s ls).
+Proof.
+  intros Ho. induction ls as [|l r IH]; intros s H; [exact H|]. cbn [tfinal]. apply IH.
+  destruct H as [L|HS].
+  - destruct l; try (left; apply live_step; [exact Ho|exact L|discriminate]).
+    right. cbn [tstep]. apply live_unsub_silent; assumption.
+  - right. apply (silent_step o s l Ho HS).
+Qed.
+
+Lemma silent_run o : not_raw o -> forall ls s j, Silent s -> no_tout (trun_sys o s j ls).
+Proof.
+  intros Ho ls. induction ls as [|l r IH]; intros s j HS; [apply no_tout_nil|].
+  cbn [trun_sys]. destruct (silent_step o s l Ho HS) as [S1 N1].
+  destruct (tstep o s l) as [s1 out]. cbn [fst snd] in *.
+  intros x [<-|Hx]; [exact I|]. apply in_app_or in Hx. destruct Hx as [Hx|Hx]; [apply N1, Hx|apply (IH s1 (S j) S1 x Hx)].
+Qed.
+
+(* C02 for the scheduler-using operators: whatever happened before (any label sequence ls1), once
+   unsubscribe() has returned, whatever happens afterwards (any label sequence ls2: the input keeps
+   emitting, tasks are polled in any order, the clock advances) the subscriber is not called. *)
+Theorem unsubscribe_silences o ls1 ls2 j :
+  not_raw o ->
+  no_tout (trun_sys o (fst (tstep o (tfinal o (tinit o) ls1) LUnsub)) j ls2).
+Proof.
+  intros Ho. apply silent_run; [exact Ho|].
+  destruct (inv_reach o ls1 Ho (tinit o) (or_introl (live_init o Ho))) as [L|HS].
+  - cbn [tstep]. apply live_unsub_silent; assumption.
+  - apply (silent_step o _ LUnsub Ho HS).
+Qed.
+
+Lemma trun_sys_app o : forall a s j b,
+  trun_sys o s j (a ++ b) = trun_sys o s j a ++ trun_sys o (tfinal o s a) (j + length a) b.
+Proof.
+  induction a as [|l r IH]; intros s j b.
+  - cbn. rewrite Nat.add_0_r. reflexivity.
+  - cbn [app trun_sys tfinal length]. destruct (tstep o s l) as [s1 out]. cbn [fst].
+    rewrite IH. cbn [app]. rewrite <- app_assoc. replace (S j + length r)%nat with (j + S (length r))%nat by lia. reflexivity.
+Qed.
+
+Lemma unsub_handle_no_tout o s t : no_tout (snd (unsub_handle o s t)).
+Proof.
+  unfold unsub_handle. destruct (nth_error (tasks s) t) as [tk|]; [|apply no_tout_nil].
+  destruct (nth_error (jobs s) t) as [j|]; [|apply no_tout_nil].
+  destruct j; cbn [subscribing andb snd]; try apply no_tout_nil;
+    destruct (handle_closed tk); cbn [snd]; try apply no_tout_nil.
+  destruct (existsb _ _); cbn [snd]; [|apply no_tout_nil]. intros x [<-|[]]. exact I.
+Qed.
+
+Lemma unsub_handles_no_tout o : forall ts s, no_tout (snd (unsub_handles o s ts)).
+Proof.
+  induction ts as [|t r IH]; intros s; [apply no_tout_nil|]. cbn [unsub_handles].
+  pose proof (unsub_handle_no_tout o s t) as N1. destruct (unsub_handle o s t) as [s1 o1].
+  pose proof (IH s1) as N2. destruct (unsub_handles o s1 r) as [s2 o2]. cbn [snd] in *. apply no_tout_app; assumption.
+Qed.
+
+Lemma on_unsub_no_tout o s : no_tout (snd (on_unsub o s)).
+Proof.
+  destruct o; cbn [on_unsub]; try apply no_tout_nil;
+    try (destruct (main_task s); [apply unsub_handle_no_tout|apply no_tout_nil]).
+  - destruct (multi _); [apply unsub_handles_no_tout|apply no_tout_nil].
+  - destruct (multi _); [apply unsub_handles_no_tout|apply no_tout_nil].
+  - destruct (handler _); apply no_tout_nil.
+  - destruct (main_task s); [|apply no_tout_nil]. pose proof (unsub_handle_no_tout (TBufferTime d) s n) as N.
+    destruct (unsub_handle (TBufferTime d) s n). exact N.
+  - destruct (main_task s); [|apply no_tout_nil]. pose proof (unsub_handle_no_tout (TBufferCountTime count d) s n) as N.
+    destruct (unsub_handle (TBufferCountTime count d) s n). exact N.
+Qed.
+
+(* the run-level statement: in the trace of ls1 ++ unsubscribe :: ls2, everything from the
+   unsubscribe label on is free of subscriber calls *)
+Theorem timed_unsubscribe_final o ls1 ls2 :
+  not_raw o ->
+  exists before after,
+    run_timed o (ls1 ++ LUnsub :: ls2) = before ++ TMark (length ls1) :: after /\
+    before = run_timed o ls1 /\ no_tout after.
+Proof.
+  intros Ho. unfold run_timed. rewrite trun_sys_app. cbn [trun_sys].
+  set (s := tfinal o (tinit o) ls1).
+  pose proof (on_unsub_no_tout o s) as N1.
+  pose proof (unsubscribe_silences o ls1 ls2 (S (0 + length ls1)) Ho) as N2. fold s in N2.
+  cbn [tstep] in *. destruct (on_unsub o s) as [s1 out]. cbn [fst snd] in *.
+  exists (trun_sys o (tinit o) 0 ls1), (out ++ trun_sys o s1 (S (0 + length ls1)) ls2).
+  split; [reflexivity|]. split; [reflexivity|]. apply no_tout_app; assumption.
+Qed.
